@@ -60,7 +60,7 @@ theorem progress (P : Params) (hP : P.Good) (s : State) (h : Reachable P s) :
     (∀ sid q, s.run = .idle → s.queue = sid :: q → (step P s .runTake).isSome) := by
   obtain ⟨hc, hl⟩ := consistent_live_of_reachable P hP s h
   have hlock := hl.lock_free
-  obtain ⟨hD, hA, hR, _⟩ := hP
+  obtain ⟨hD, hA, hR, _, _⟩ := hP
   refine ⟨?_, ?_, ?_, ?_, ?_⟩
   · intro g a ha hpc hd
     simp [step, ha, hlock, hpc, hd]
@@ -78,10 +78,96 @@ theorem progress (P : Params) (hP : P.Good) (s : State) (h : Reachable P s) :
     obtain ⟨i, hi⟩ := hc.queue_st sid (by simp [hq])
     simp [step, hr, hq, hlock, hi]
 
+theorem drain_run (s : State) (k : Nat) : (drain s k).run = s.run := by
+  unfold drain
+  split
+  · split <;> simp [setStream, setSlot]
+  · rfl
+
+/-- **`Run` never leaves its loop while the session is alive**: a stream that is opened and closed before its
+id header arrives ("peer closes mid-negotiation") costs that stream only. -/
+theorem run_never_dies (P : Params) (hP : P.Good) (s : State) (h : Reachable P s) : s.run ≠ .dead := by
+  obtain ⟨_, _, _, hH, _⟩ := hP
+  refine reachable_induction (Inv := fun s => s.run ≠ .dead) (by simp [init]) ?_ s h
+  intro s e s' hi hs
+  have gs : ∀ (s0 : State) id, (getStream s0 id).1.run = s0.run := by
+    intro s0 id; unfold getStream; split <;> rfl
+  cases e with
+  | dial id => simp only [step, Option.some.injEq] at hs; subst hs; exact hi
+  | tick d => simp only [step, Option.some.injEq] at hs; subst hs; exact hi
+  | abort =>
+    simp only [step, hH, if_true] at hs
+    split at hs
+    · simp only [Option.some.injEq] at hs; subst hs; exact hi
+    · simp at hs
+  | runTake =>
+    simp only [step] at hs
+    split at hs
+    · split at hs
+      · simp only [Option.some.injEq] at hs; subst hs; simp [setStream]
+      · simp at hs
+    · simp at hs
+  | runPark =>
+    simp only [step] at hs
+    split at hs
+    · split at hs
+      · split at hs <;> (simp only [Option.some.injEq] at hs; subst hs; simp [setStream, setSlot])
+      · simp at hs
+    · simp at hs
+  | accept id =>
+    simp only [step] at hs
+    split at hs
+    · simp only [Option.some.injEq] at hs; subst hs; simp only [gs]; exact hi
+    · simp at hs
+  | accTake g =>
+    simp only [step] at hs
+    split at hs
+    · split at hs
+      · split at hs
+        · split at hs <;> (simp only [Option.some.injEq] at hs; subst hs; simpa [setAcc, setStream, setSlot] using hi)
+        · simp at hs
+      · simp at hs
+    · simp at hs
+  | accTimeout g =>
+    simp only [step] at hs
+    split at hs
+    · split at hs
+      · simp only [Option.some.injEq] at hs; subst hs; simpa [setAcc] using hi
+      · simp at hs
+    · simp at hs
+  | twDone t =>
+    simp only [step] at hs
+    split at hs
+    · split at hs
+      · split at hs
+        · simp only [Option.some.injEq] at hs; subst hs; simpa [setTw] using hi
+        · simp at hs
+      · simp at hs
+    · simp at hs
+  | twTimer t =>
+    simp only [step] at hs
+    split at hs
+    · split at hs
+      · simp only [Option.some.injEq] at hs; subst hs; simpa [setTw] using hi
+      · simp at hs
+    · simp at hs
+  | twFinish t =>
+    simp only [step] at hs
+    repeat' split at hs
+    all_goals first
+      | (simp at hs; done)
+      | (simp only [Option.some.injEq] at hs; subst hs; simp [setTw, drain_run]; exact hi)
+  | twUnblock t =>
+    simp only [step] at hs
+    repeat' split at hs
+    all_goals first
+      | (simp at hs; done)
+      | (simp only [Option.some.injEq] at hs; subst hs; simp [setTw, drain_run]; exact hi)
+
 /-! ### Witnesses: each structural fact is needed (these are the replays of defects D5, D5b, D5c) -/
 
 /-- the source as it was before the fixes -/
-def pOld : Params := ⟨false, false, false, 1, 5000, 5000⟩
+def pOld : Params := ⟨false, false, false, true, 1, 5000, 5000⟩
 
 /-- D5: two unaccepted dials to one id; after both expiry timers the second
 `timeoutWait` blocks on the empty slot while holding the mutex. -/
@@ -105,10 +191,10 @@ theorem wedge_witness_accept_at_expiry :
 /-- D5b: with the `default` arm added but the dropped stream not closed, the
 second dial to a pending id is dropped unclosed. -/
 theorem dropped_witness :
-    ∃ s, runFrom ⟨true, false, false, 1, 5000, 5000⟩ init
+    ∃ s, runFrom ⟨true, false, false, true, 1, 5000, 5000⟩ init
         [.dial 77, .dial 77, .runTake, .runPark, .runTake, .runPark] = some s ∧
       (s.streams 1).map (·.st) = some .dropped := by
-  refine ⟨(runFrom ⟨true, false, false, 1, 5000, 5000⟩ init
+  refine ⟨(runFrom ⟨true, false, false, true, 1, 5000, 5000⟩ init
         [.dial 77, .dial 77, .runTake, .runPark, .runTake, .runPark]).get (by decide), by simp, by decide⟩
 
 /-- D5c: a second dial parked in a slot whose `doneCh` is already closed is never
@@ -119,18 +205,26 @@ def orphanTrace : List Event :=
    .twDone 0, .twDone 1, .twFinish 0, .twFinish 1]
 
 theorem orphan_witness :
-    ∃ s, runFrom ⟨true, false, true, 1, 5000, 5000⟩ init orphanTrace = some s ∧
+    ∃ s, runFrom ⟨true, false, true, true, 1, 5000, 5000⟩ init orphanTrace = some s ∧
       (s.streams 1).map (·.st) = some (.parked 0) ∧
       (s.tws 0).map (·.pc) = some .finished ∧ (s.tws 1).map (·.pc) = some .finished := by
-  refine ⟨(runFrom ⟨true, false, true, 1, 5000, 5000⟩ init orphanTrace).get (by decide), by simp, by decide, by decide, by decide⟩
+  refine ⟨(runFrom ⟨true, false, true, true, 1, 5000, 5000⟩ init orphanTrace).get (by decide), by simp, by decide, by decide, by decide⟩
+
+
+/-- A seeded change's shape: if a failed header read ended the `Run` loop, one aborted stream would stop the
+broker for good — a later Accept(6)/Dial(6) on the same connection never connect. -/
+theorem header_error_witness :
+    ∃ s, runFrom ⟨true, true, true, false, 1, 5000, 5000⟩ init [.abort, .accept 6, .dial 6] = some s ∧
+      s.run = .dead ∧ step ⟨true, true, true, false, 1, 5000, 5000⟩ s .runTake = none := by
+  refine ⟨(runFrom ⟨true, true, true, false, 1, 5000, 5000⟩ init [.abort, .accept 6, .dial 6]).get (by decide), by simp, by decide, by decide⟩
 
 /-- with the unconditional drain the same history closes the orphan -/
-example : ∃ s, runFrom ⟨true, true, true, 1, 5000, 5000⟩ init orphanTrace = some s ∧
+example : ∃ s, runFrom ⟨true, true, true, true, 1, 5000, 5000⟩ init orphanTrace = some s ∧
       (s.streams 1).map (·.st) = some .closed := by
-  refine ⟨(runFrom ⟨true, true, true, 1, 5000, 5000⟩ init orphanTrace).get (by decide), by simp, by decide⟩
+  refine ⟨(runFrom ⟨true, true, true, true, 1, 5000, 5000⟩ init orphanTrace).get (by decide), by simp, by decide⟩
 
 /-- non-vacuity of `no_lock_wedge`: the D5 history is a legal history of the fixed source and ends unwedged -/
-example : ∃ s, runFrom ⟨true, true, true, 1, 5000, 5000⟩ init wedgeTrace = some s ∧ ¬ LockWedged s := by
-  refine ⟨(runFrom ⟨true, true, true, 1, 5000, 5000⟩ init wedgeTrace).get (by decide), by simp, by decide⟩
+example : ∃ s, runFrom ⟨true, true, true, true, 1, 5000, 5000⟩ init wedgeTrace = some s ∧ ¬ LockWedged s := by
+  refine ⟨(runFrom ⟨true, true, true, true, 1, 5000, 5000⟩ init wedgeTrace).get (by decide), by simp, by decide⟩
 
 end GoPlugin.Props.C09
